@@ -18,8 +18,8 @@ ID = "C10"
 CASES = {"quick": 2400, "thorough": 30000}
 FLOOR = {"quick": 1800, "thorough": 22000}
 FLOOR_COUNTERS = {
-    "quick": {"alphas_judged": 9000, "fold_captures": 1800, "rank_deficient_fits": 350, "r2_fits": 400, "explicit_cv_fits": 400, "n_jobs_2_fits": 10},
-    "thorough": {"alphas_judged": 110000, "fold_captures": 22000, "rank_deficient_fits": 4000, "r2_fits": 5000, "explicit_cv_fits": 5000, "n_jobs_2_fits": 100},
+    "quick": {"alphas_judged": 9000, "fold_captures": 1800, "rank_deficient_fits": 350, "r2_fits": 400, "explicit_cv_fits": 400, "n_jobs_2_fits": 10, "one_dimensional_targets": 200},
+    "thorough": {"alphas_judged": 110000, "fold_captures": 22000, "rank_deficient_fits": 4000, "r2_fits": 5000, "explicit_cv_fits": 5000, "n_jobs_2_fits": 100, "one_dimensional_targets": 2500},
 }
 RULE = (
     "case = X (tall / wide / exactly rank-deficient through duplicated or combined columns / column-scaled; largest "
@@ -68,7 +68,9 @@ def gen(rng, tier, index):
         alphas = np.sort(10.0 ** rng.uniform(-9, -0.01, size=na))
         if rng.random() < 0.4:
             alphas[0] = 0.0
-    cvk = gens.pick(rng, ("none", "default", "shuffle", "pairs", "pairs_unequal", "kfold"))
+    if p == 1 and rng.random() < 0.5:
+        Y = Y[:, 0].copy()  # a single target given as a 1-D array
+    cvk = gens.pick(rng, ("none", "default", "shuffle", "pairs", "pairs_unequal", "kfold", "int"))
     cv = {"kind": cvk}
     if cvk == "shuffle":
         cv["seed"] = int(rng.integers(1000))
@@ -79,6 +81,8 @@ def gen(rng, tier, index):
         if cvk == "pairs_unequal" and rng.random() < 0.5:
             b = b[: max(2, len(b) - 2)]  # folds need not cover the data
         cv["pairs"] = [[np.sort(a), np.sort(b)], [np.sort(b), np.sort(a)]]
+    elif cvk == "int":
+        cv["n_splits"] = int(gens.pick(rng, (2, 3, 5)))
     elif cvk == "kfold":
         cv["n_splits"] = int(gens.pick(rng, (2, 3)))
         cv["seed"] = int(rng.integers(1000))
@@ -109,6 +113,8 @@ def _cv_object(cv, n):
     if k in ("pairs", "pairs_unequal"):
         pairs = [(np.asarray(a), np.asarray(b)) for a, b in cv["pairs"]]
         return pairs, {}, pairs
+    if k == "int":  # an integer is turned into an unshuffled KFold by sklearn's check_cv
+        return cv["n_splits"], {}, KFold(n_splits=cv["n_splits"])
     kf = KFold(n_splits=cv["n_splits"], shuffle=True, random_state=cv["seed"])
     return kf, {}, KFold(n_splits=cv["n_splits"], shuffle=True, random_state=cv["seed"])
 
@@ -152,8 +158,13 @@ def run(case, j):
     from skmatter.linear_model import Ridge2FoldCV
 
     X, Y, Z = case["X"], case["Y"], case["Z"]
+    oned = np.ndim(Y) == 1
+    Yin = Y
+    Y = np.asarray(Y).reshape(len(X), -1)  # the oracle works with columns
     n, m = X.shape
     alphas, atype, method, scoring = case["alphas"], case["alpha_type"], case["method"], case["scoring"]
+    if oned:
+        j.note("one_dimensional_targets")
     j.tag(f"X:{case['shape']}", f"alpha:{atype}", f"method:{method}", f"scoring:{scoring}", f"cv:{case['cv']['kind']}", f"n_jobs:{case['n_jobs']}")
     cv_arg, kw, cv_ref = _cv_object(case["cv"], n)
     est = Ridge2FoldCV(alphas=alphas.copy(), alpha_type=atype, regularization_method=method, scoring=scoring, cv=cv_arg, n_jobs=case["n_jobs"], **kw)
@@ -164,7 +175,7 @@ def run(case, j):
 
     cnt = [0]
     with rt.hook_method(Ridge2FoldCV, "_2fold_cv", pre=pre, counter=cnt):
-        j.lib("fit", est.fit, X, Y)
+        j.lib("fit", est.fit, X, Yin)
     if case["n_jobs"] == 2:
         j.note("n_jobs_2_fits")
     # ---- folds
@@ -223,14 +234,17 @@ def run(case, j):
     # ---- final coefficients
     Wf = _solve(X, Y, scaled[ia], method)
     coef = np.asarray(est.coef_)
-    j.ok("coef_ has shape (n_targets, n_features)", coef.shape == (Y.shape[1], m), coef.shape)
+    j.ok("coef_ has shape (n_targets, n_features), or (n_features,) for a 1-D target", coef.shape == ((m,) if oned else (Y.shape[1], m)), coef.shape)
+    coef = coef.reshape(-1, m)
     smin = sf[sf > 1e-9 * sf[0]].min()
     bound = 10 * np.linalg.norm(Y) / smin
     j.ok("coefficients stay bounded (null directions excluded)", np.linalg.norm(coef) <= bound, {"norm": float(np.linalg.norm(coef)), "bound": float(bound), "alpha": float(scaled[ia])})
     if coef.shape == Wf.T.shape:
         cond = sf[0] / smin
         j.close("coef_ == regularised solution on the full data for alpha_", coef, Wf.T, 1e-7 * max(float(np.abs(Wf).max()), 1e-300) * max(1.0, cond * 1e-3), {"alpha": float(scaled[ia]), "method": method})
-    j.close("predict(Z) == Z @ coef_.T", est.predict(Z), Z @ coef.T, 1e-9 * max(float(np.abs(Z @ coef.T).max()), 1e-300))
+    pz = np.asarray(est.predict(Z))
+    j.ok("predict returns one column per target (1-D for a 1-D target)", pz.shape == ((len(Z),) if oned else (len(Z), Y.shape[1])), pz.shape)
+    j.close("predict(Z) == Z @ coef_.T", pz.reshape(len(Z), -1), Z @ coef.T, 1e-9 * max(float(np.abs(Z @ coef.T).max()), 1e-300))
     j.nontrivial = len(alphas) >= 3 and len(np.unique(np.round(want, 12))) >= 2
     j.sample = {
         "X": f"{X.shape} {case['shape']} sigma1={sf[0]:.3g}",
